@@ -23,7 +23,8 @@ MANIFEST = {
             'left the event loop or a manager step, chain state / head / pool / store rows equal the adversary-free '
             'expectation, every honest connection is still registered, greeted and parseable; at most the adversarial '
             'connection was closed.'
-            ' Also: a connection aborted while it waits in the accept queue; a rule-breaking block pushed as a response by one peer while another peer had been asked for it; blocks announced, requested and served with a wrong height.',
+            ' Also: a connection aborted while it waits in the accept queue; a rule-breaking block pushed as a response by one peer while another peer had been asked for it; blocks announced, requested and served with a wrong height.'
+            ' Malformed input (framing, decoding, by-itself-invalid blocks and transactions) also arrives while a bulk download from another peer is in progress: the blocks installed unvalidated and only buffered are chain state like any other and must stay; a validated block then ends the download.',
     'note': 'Frames are bounded (<= 64 KiB): CPU/memory exhaustion inputs are out of scope (no cost model). Well-formed '
             'responses nobody asked for (out of protocol order) carry rule-breaking blocks; blocks announced, requested and then '
             'served with a height that is not parent + 1 (in protocol order, structurally inconsistent) must be refused. '
@@ -579,5 +580,5 @@ def describe():
                                 'ConnectedRemotePeer handlers', 'ChainManager / NetworkManager', 'BlockStore (real SQLite)'],
                        'stub': ['TCP, selector, clock, randomness', 'Bots (honest and adversarial)', 'scrypt stand-in']},
         'assumptions': ['frames <= 64 KiB', 'the adversary never sends a fully valid new block or transaction'],
-        'expected_probes': ['honest_blocks', 'honest_transactions'] + ['adv:' + k for k in ADV],
+        'expected_probes': ['probe:malformed_input_during_bulk_download', 'honest_blocks', 'honest_transactions'] + ['adv:' + k for k in ADV],
     }
